@@ -81,6 +81,7 @@ type Exec struct {
 	inlined bool
 	entryGuard string
 	rets []inlineRet
+	paramArgs map[*ssa.Parameter]ssa.Value
 }
 
 type unsupported struct{ msg string }
@@ -635,111 +636,7 @@ func (x *Exec) loopModset(li *loopInfo) map[string]string {
 	}
 	for b := range li.body {
 		for _, in := range b.Instrs {
-			switch in := in.(type) {
-			case *ssa.Alloc:
-				if in.Heap {
-					add("brk", "any")
-					k, _ := e.heapKeyFor(deref(in.Type()))
-					if _, isArr := deref(in.Type()).Underlying().(*types.Array); isArr {
-						k, _ = e.memKeyFor(deref(in.Type()).Underlying().(*types.Array).Elem())
-					}
-					add(k, "new")
-				}
-			case *ssa.Store:
-				k, fresh := x.storeKey(in.Addr, li)
-				if fresh {
-					add(k, "new")
-				} else {
-					add(k, "any")
-				}
-			case *ssa.MapUpdate:
-				mt := in.Map.Type().Underlying().(*types.Map)
-				d, v, _, _ := e.mapKeysFor(mt)
-				add(d, "any")
-				add(v, "any")
-			case *ssa.MakeSlice:
-				add("brk", "any")
-				k, _ := e.memKeyFor(in.Type().Underlying().(*types.Slice).Elem())
-				add(k, "new")
-			case *ssa.MakeMap:
-				add("brk", "any")
-				mt := in.Type().Underlying().(*types.Map)
-				d, v, _, _ := e.mapKeysFor(mt)
-				add(d, "new")
-				add(v, "new")
-			case *ssa.Next:
-				if rg, ok := in.Iter.(*ssa.Range); ok {
-					k := fmt.Sprintf("L:iter_%s_%d", sanitize(rg.Name()), rg.Block().Index)
-					if _, known := e.heapSort[k]; known { // iterators created inside the loop are re-initialised there
-						add(k, "any")
-					}
-				}
-			case *ssa.MakeClosure, *ssa.MakeChan:
-				add("brk", "any")
-			case *ssa.MakeInterface:
-			case ssa.CallInstruction:
-				c := in.Common()
-				if b, ok := c.Value.(*ssa.Builtin); ok {
-					if b.Name() == "append" {
-						add("brk", "any")
-						k, _ := e.memKeyFor(c.Args[0].Type().Underlying().(*types.Slice).Elem())
-						add(k, "new")
-					}
-					continue
-				}
-				for _, a := range x.calleeAssigns(c) {
-					add(a.key, a.mode)
-					if a.key == "*" {
-						if x.loopPreserve == nil {
-							x.loopPreserve = map[*loopInfo]map[string]int{}
-						}
-						if x.loopPreserve[li] == nil {
-							x.loopPreserve[li] = map[string]int{}
-						}
-						x.loopPreserve[li]["#stars"]++
-						for _, pk := range a.preserves {
-							x.loopPreserve[li][pk]++
-						}
-					}
-				}
-				if x.fc != nil {
-					pats := x.callPatterns(c, c.StaticCallee())
-					for _, at := range x.fc.Ats {
-						if at.What != "call" {
-							continue
-						}
-						hit := false
-						for _, p := range pats {
-							if p == at.Pattern {
-								hit = true
-							}
-						}
-						if !hit {
-							continue
-						}
-						for _, u := range at.Updates {
-							add(x.ghostKey(u.Name), "any")
-						}
-					}
-				}
-			case *ssa.Select:
-				if x.fc != nil {
-					for _, at := range x.fc.Ats {
-						for _, u := range at.Updates {
-							add(x.ghostKey(u.Name), "any")
-						}
-					}
-				}
-				add("G:now", "any")
-			case *ssa.Send:
-				if x.fc != nil {
-					for _, at := range x.fc.Ats {
-						for _, u := range at.Updates {
-							add(x.ghostKey(u.Name), "any")
-						}
-					}
-				}
-			}
+			x.instrMods(in, li, add)
 		}
 	}
 	// ghost keys only if declared
@@ -751,6 +648,145 @@ func (x *Exec) loopModset(li *loopInfo) map[string]string {
 		}
 	}
 	return mods
+}
+
+// instrMods adds to a modified set what one instruction may modify (li is the
+// loop being summarised, or nil when summarising an inlined helper).
+func (x *Exec) instrMods(in ssa.Instruction, li *loopInfo, add func(k, mode string)) {
+	e := x.enc
+	switch in := in.(type) {
+	case *ssa.Alloc:
+		if in.Heap {
+			add("brk", "any")
+			k, _ := e.heapKeyFor(deref(in.Type()))
+			if _, isArr := deref(in.Type()).Underlying().(*types.Array); isArr {
+				k, _ = e.memKeyFor(deref(in.Type()).Underlying().(*types.Array).Elem())
+			}
+			add(k, "new")
+		}
+	case *ssa.Store:
+		k, fresh := x.storeKey(in.Addr, li)
+		if fresh {
+			add(k, "new")
+		} else {
+			add(k, "any")
+		}
+	case *ssa.MapUpdate:
+		mt := in.Map.Type().Underlying().(*types.Map)
+		d, v, _, _ := e.mapKeysFor(mt)
+		add(d, "any")
+		add(v, "any")
+	case *ssa.MakeSlice:
+		add("brk", "any")
+		k, _ := e.memKeyFor(in.Type().Underlying().(*types.Slice).Elem())
+		add(k, "new")
+	case *ssa.MakeMap:
+		add("brk", "any")
+		mt := in.Type().Underlying().(*types.Map)
+		d, v, _, _ := e.mapKeysFor(mt)
+		add(d, "new")
+		add(v, "new")
+	case *ssa.Next:
+		if rg, ok := in.Iter.(*ssa.Range); ok {
+			k := fmt.Sprintf("L:iter_%s_%d", sanitize(rg.Name()), rg.Block().Index)
+			if _, known := e.heapSort[k]; known { // iterators created inside the loop are re-initialised there
+				add(k, "any")
+			}
+		}
+	case *ssa.MakeClosure, *ssa.MakeChan:
+		add("brk", "any")
+	case *ssa.MakeInterface:
+	case ssa.CallInstruction:
+		c := in.Common()
+		if b, ok := c.Value.(*ssa.Builtin); ok {
+			if b.Name() == "append" {
+				add("brk", "any")
+				k, _ := e.memKeyFor(c.Args[0].Type().Underlying().(*types.Slice).Elem())
+				add(k, "new")
+			}
+			return
+		}
+		for _, a := range x.calleeAssigns(c) {
+			add(a.key, a.mode)
+			if a.key == "*" && li != nil {
+				if x.loopPreserve == nil {
+					x.loopPreserve = map[*loopInfo]map[string]int{}
+				}
+				if x.loopPreserve[li] == nil {
+					x.loopPreserve[li] = map[string]int{}
+				}
+				x.loopPreserve[li]["#stars"]++
+				for _, pk := range a.preserves {
+					x.loopPreserve[li][pk]++
+				}
+			}
+		}
+		if x.fc != nil {
+			pats := x.callPatterns(c, c.StaticCallee())
+			for _, at := range x.fc.Ats {
+				if at.What != "call" {
+					continue
+				}
+				hit := false
+				for _, p := range pats {
+					if p == at.Pattern {
+						hit = true
+					}
+				}
+				if !hit {
+					continue
+				}
+				for _, u := range at.Updates {
+					add(x.ghostKey(u.Name), "any")
+				}
+			}
+		}
+	case *ssa.Select:
+		if x.fc != nil {
+			for _, at := range x.fc.Ats {
+				for _, u := range at.Updates {
+					add(x.ghostKey(u.Name), "any")
+				}
+			}
+		}
+		add("G:now", "any")
+	case *ssa.Send:
+		if x.fc != nil {
+			for _, at := range x.fc.Ats {
+				for _, u := range at.Updates {
+					add(x.ghostKey(u.Name), "any")
+				}
+			}
+		}
+	}
+}
+
+// inlineAssigns summarises what an inlinable helper (no contract, loop-free) may
+// modify, from its own instructions, so that a loop calling it is not treated
+// as modifying everything.
+func (x *Exec) inlineAssigns(callee *ssa.Function) []assignItem {
+	sub := newExec(x.enc, callee, x.name, x.fc)
+	sub.parent = x
+	sub.inlineDepth = x.inlineDepth + 1
+	sub.inlined = true
+	sub.localGhost = x.localGhost
+	mods := map[string]string{}
+	add := func(k, mode string) {
+		if mods[k] == "any" {
+			return
+		}
+		mods[k] = mode
+	}
+	for _, b := range callee.Blocks {
+		for _, in := range b.Instrs {
+			sub.instrMods(in, nil, add)
+		}
+	}
+	var out []assignItem
+	for k, m := range mods {
+		out = append(out, assignItem{key: k, mode: m})
+	}
+	return out
 }
 
 func deref(t types.Type) types.Type {
